@@ -132,6 +132,14 @@ def enum_cases():
                        "pre": (None, None, "send_close", "send", "ping")[(n + di) % 5]}
 
 
+def long_run_cases():
+    """One receive call that has to get through a long run of frames it does not report (idle connection kept alive by pings)."""
+    for n in (1200, 2500):
+        pings = [{"fin": 1, "op": rm.PING if i % 3 else rm.PONG, "p": bytes([i % 251]) * (i % 5)} for i in range(n)]
+        yield {"frames": [{"fin": 0, "op": rm.TEXT, "p": b"start"}] + pings + [{"fin": 1, "op": rm.CONT, "p": b"end"}], "driver": "recv", "cf": False, "cuts": []}
+        yield {"frames": pings + [{"fin": 1, "op": rm.BINARY, "p": b"x"}], "driver": "data", "cf": False, "cuts": []}
+
+
 @st.composite
 def cases(draw):
     base = draw(rx.legal_stream(max_msgs=3, big=False))
@@ -177,6 +185,8 @@ def jobs(tier, seed):
 def run_job(job, coll):
     if job["kind"] == "enum":
         for c in enum_cases():
+            coll.check(c, run_case)
+        for c in long_run_cases():
             coll.check(c, run_case)
         coll.exhaustive["ping payload lengths 0..125 x {alone, between messages, inside a fragmented message, back-to-back}"] = True
     else:
